@@ -419,6 +419,9 @@ def _send(comm, obj, dest, dtype):
     from .field import Field
     from .multi_field import MultiField
 
+    if dtype is np.ndarray and isinstance(obj, np.generic):
+        # sums of zero-dimensional arrays are numpy scalars
+        obj = np.asarray(obj)
     assert isinstance(obj, dtype)
     if dtype is np.ndarray:
         shp_orig = obj.shape
